@@ -28,9 +28,12 @@ import re
 import numpy as np
 
 from lib import core, gen, graphcap
+from props import xlate_tie
 
-EXTRACTORS = ["Generic"]
-EXTRA_PROPS = ["C17Lower"]
+EXTRACTORS = ["Generic", "Stb"]
+# Props/C17Xlate.lean: the hand model of `_squeeze_transpose_broadcast` and of the numpy wrappers equals the Lean definitions
+# that tools/extract/stb.py translates from /repo's source on every run (built and audited with C17)
+EXTRA_PROPS = ["C17Lower", "C17Xlate"]
 BACKENDS = ["numpy", "numpy.numpylike", "numpy.einsum"]
 FORBIDDEN = (ast.For, ast.AsyncFor, ast.While, ast.If, ast.IfExp, ast.ListComp, ast.SetComp, ast.DictComp, ast.GeneratorExp,
              ast.Lambda, ast.Try, ast.With, ast.AsyncWith, ast.Match, ast.BoolOp, ast.NamedExpr, ast.Await, ast.Yield, ast.YieldFrom,
@@ -557,6 +560,12 @@ def run(ctx):
     for ln, v in facts.get("emitter_keyword_fragments", []):
         ctx.tie_broken("extract:emitter-keyword", f"compiler/python/__init__.py:{ln}: emitted text fragment {v!r} contains a control-flow keyword")
     ctx.extra["size_sites"] = len(facts.get("sites", []))
+    xl = (getattr(ctx, "facts", {}) or {}).get("Stb", {})
+    ctx.extra["xlate_stb"] = {"translated": xl.get("translated", {}), "readings": xl.get("notes", []), "isinstance_guards_read_as_true": xl.get("assumed", [])}
+    for k, ok in sorted(xl.get("translated", {}).items()):
+        ctx.count("xlate:" + k + (":translated" if ok else ":CONSERVATIVE"))
+    ctx.assumptions.append("Python -> Lean translation of _squeeze_transpose_broadcast / _to_axis_ids / the numpy wrappers (tools/extract/_pylean.py, reading of the builtins in "
+                           "Basic/PyPrelude.lean) on flat expressions: " + "; ".join(xl.get("notes", []) + xl.get("assumed", [])))
     ctx.extra["lower_size_generic"] = ("stb_size_generic proved for _squeeze_transpose_broadcast; lower_size_generic_partial for id on flat expressions (hypothesis: final no-op test); "
                                        "stbU_size_generic (broadcast_to_unitary=True) and expr_to_axis_size_generic (Props/C17Lower.lean) for the pieces of the elementwise / reduce lowering; "
                                        "the whole elementwise / reduce pipelines rest on the lower_model tie (model = traced graph, equal model skeletons over three assignments); "
@@ -626,6 +635,11 @@ def run(ctx):
         from props import lower_tie
         lower_tie.lower_tie(ctx, n_stb, SizedCall, variants)
         timing["lower_tie"] = round(_time.time() - _t0, 1)
+        _t0 = _time.time()
+        # the translated definitions (Extracted/Stb.lean, compiled into the driver) against the real Python functions, and the
+        # reading of Python's builtins against CPython
+        xlate_tie.run(ctx)
+        timing["xlate_tie"] = round(_time.time() - _t0, 1)
     ctx.extra["traces_validated_against_impl"] = ctx.extra.get("texts_checked", 0) + ctx.extra.get("graphs_validated", 0)
 
 
